@@ -590,13 +590,13 @@ def check_helper_retired(P, rule):
             bad = []
 
             class Retired(S.SeqRule):
-                max_depth = 1
+                max_depth = 2
 
                 def user0(s2, fn):
                     return (None, False)        # (the taking call, helper destroyed since)
 
                 def inline(s2, fn, nid, callee):
-                    return False
+                    return callee.static and callee.file == f.file and callee is not f        # the success tail may live in a helper
 
                 def on_call(s2, fn, st, nid, callees, exts):
                     nm = fn.nodes[nid].get("callee") or ""
@@ -608,7 +608,7 @@ def check_helper_retired(P, rule):
 
                 def on_exit(s2, fn, st, ret_nid, ret_cls, top):
                     tk, des = st.user
-                    if not top or tk is None or des or bad:
+                    if not top or fn is not f or tk is None or des or bad:
                         return
                     cls = [st.get(("call", tk))] + [st.get(k[1]) for k, v in st.vals if isinstance(k, tuple) and k[0] == "src" and v == ("call", tk)]
                     if any(c in (S.ZERO, S.NONNEG, S.POS) for c in cls):
